@@ -562,6 +562,24 @@ def ipvTry (cap : Nat) (d : V) (x : Nat) : Except Err (V × Option Nat) :=
     let r ← ipvUnchecked cap d x
     .ok (r.1, some r.2)
 
+/-- `unchecked_push_back(c[i])` / `unchecked_emplace_back(c[i])`: `construct_at(end(), val)` reads the argument through
+    the reference, then the size grows -/
+def ipvUncheckedA (cap : Nat) (d : V) (a : Arg) : Except Err (V × Nat) :=
+  if d.length = cap then .error (.pre "unchecked_push_back: size() != max_size()")
+  else do
+    let x ← rdArg d a
+    let d1 := d ++ [x]
+    setSize cap (d.length + 1)
+    let r ← back d1
+    .ok (d1, r)
+
+/-- `try_push_back(c[i])` / `try_emplace_back(c[i])` -/
+def ipvTryA (cap : Nat) (d : V) (a : Arg) : Except Err (V × Option Nat) :=
+  if d.length = cap then .ok (d, none)
+  else do
+    let r ← ipvUncheckedA cap d a
+    .ok (r.1, some r.2)
+
 def ipvPop (cap : Nat) (d : V) : Except Err V :=
   if d.isEmpty then .error (.pre "pop_back: not empty()")
   else do
